@@ -130,7 +130,7 @@ class Model:
 def screen_params(draw):
     kind = draw(st.sampled_from(["vk", "fried"]))
     ps = draw(st.one_of(gen.logfloat(0.02, 0.5), st.sampled_from([1, 2])))
-    p = {"kind": kind, "nx": draw(st.integers(2, 14)), "ps": ps, "r0": draw(gen.logfloat(0.05, 1.0)), "L0": ps * draw(c04.RATIO),
+    p = {"kind": kind, "nx": draw(st.integers(2, 14)), "ps": ps, "r0": draw(st.one_of(gen.logfloat(0.05, 1.0), gen.logfloat(1e-3, 100.0))), "L0": ps * draw(c04.RATIO),
          "gen": draw(st.sampled_from(["scripted", "scripted", "real"])), "seed": draw(st.integers(0, 2**32 - 1)),
          "sib": draw(st.sampled_from([None, None, None, "r0,L0", "ps,r0,L0"])), "sibk": draw(st.sampled_from([2.0, 0.5]))}
     if kind == "vk":
